@@ -8,6 +8,8 @@ import (
 	"strings"
 
 	mc "github.com/ddddddO/gtree/verifmc"
+
+	"verifharness/model"
 )
 
 // ---- C10: massive mode == simple mode up to the order of roots
@@ -49,6 +51,8 @@ type c10Spec struct {
 	pre    map[string]byte
 	strict bool
 	lines  []int // number of output lines of each root in text mode (nodes after merging)
+	fm     *model.Fmt4
+	fsFail int // fail the k-th file-system call (both modes): only the error verdict is compared
 }
 
 func (s *c10Spec) doc() string { return s.prefix + strings.Join(s.roots, "") }
@@ -176,6 +180,9 @@ func (e *c10Exec) Check(o *mc.Outcome) []Viol {
 				vs = append(vs, Viol{"C10|walk-differs|" + e.sc.name, fmt.Sprintf("driver %s\nmassive blocks:\n%s\nsimple blocks:\n%s", d, got, want)})
 			}
 		}
+	case op == "mkdir" && d.FSFailAt > 0:
+		// a single failing file-system call: only "error iff simple mode errs" is compared (the two modes issue
+		// their calls in different orders, so the file systems legitimately differ)
 	case op == "mkdir":
 		if e.OutsideChanged != "" {
 			vs = append(vs, Viol{"C10|mkdir-outside-target|" + e.sc.name, e.OutsideChanged})
@@ -237,7 +244,7 @@ func c10Scenario(sp *c10Spec, bound int, workers map[string]int, pols []int) *Sc
 		pols = pols[:1] // quick: the deeper bound is explored around the default base schedule only
 	}
 	d := NewDrv(sp.op, sp.doc())
-	d.Exts, d.Pre, d.Strict = sp.exts, sp.pre, sp.strict
+	d.Exts, d.Pre, d.Strict, d.Fmt, d.FSFailAt = sp.exts, sp.pre, sp.strict, sp.fm, sp.fsFail
 	ref := &c10Ref{}
 	return &Scenario{
 		Name: "c10/" + sp.name + "/" + sp.op, Prop: "C10", Workers: workers, Bound: bound, Policies: pols,
@@ -309,6 +316,61 @@ func c10Scenario(sp *c10Spec, bound int, workers map[string]int, pols []int) *Sc
 }
 
 var thoroughTier bool
+
+// c10RootScenario: the From-Root family with the massive option against the same call without it (one root).
+type c10RootExec struct {
+	*DrvRun
+	ref *DrvRun
+}
+
+func (e *c10RootExec) Outcome() string {
+	return fmt.Sprintf("err=%v out=%s rows=%d fs=%d", e.Err != nil, short(e.Out), len(e.Rows), len(e.After))
+}
+
+func (e *c10RootExec) Check(o *mc.Outcome) []Viol {
+	e.Finish()
+	if e.W != nil {
+		e.Out = e.W.buf.String()
+	}
+	if o.End() == "panic" {
+		return []Viol{{"C10|panic-in-massive|" + panicSig(o.Panic), fmt.Sprintf("driver %s\n%s", e.d, o.Panic)}}
+	}
+	if !e.Returned || e.ref == nil {
+		return nil
+	}
+	var vs []Viol
+	if (e.Err != nil) != (e.ref.Err != nil) {
+		vs = append(vs, Viol{"C10|error-mismatch|from-root|" + e.d.Op, fmt.Sprintf("driver %s: massive err=%v, simple err=%v", e.d, e.Err, e.ref.Err)})
+	}
+	if e.Err == nil && e.ref.Err == nil {
+		if e.Out != e.ref.Out {
+			vs = append(vs, Viol{"C10|from-root-output-differs|" + e.d.Op, fmt.Sprintf("driver %s:\nmassive %q\nsimple  %q", e.d, e.Out, e.ref.Out)})
+		}
+		if strings.Join(e.WalkBlocks(), "|") != strings.Join(e.ref.WalkBlocks(), "|") {
+			vs = append(vs, Viol{"C10|from-root-walk-differs|" + e.d.Op, fmt.Sprintf("driver %s:\nmassive %q\nsimple  %q", e.d, e.WalkBlocks(), e.ref.WalkBlocks())})
+		}
+	}
+	if !snapEqual(e.After, e.ref.After) {
+		vs = append(vs, Viol{"C10|from-root-fs-differs|" + e.d.Op, fmt.Sprintf("driver %s: massive %v simple %v", e.d, keys(e.After), keys(e.ref.After))})
+	}
+	if e.OutsideChanged != "" {
+		vs = append(vs, Viol{"C10|mkdir-outside-target|from-root", e.OutsideChanged})
+	}
+	return vs
+}
+
+func c10RootScenario(name string, d *Drv, bound int, pols []int) *Scenario {
+	var ref *DrvRun
+	return &Scenario{Name: "c10/root/" + name, Prop: "C10", Workers: w2, Bound: bound, Policies: pols,
+		Prepare: func() {
+			ref = nil
+			func() {
+				defer func() { recover() }()
+				ref = runSimple(*d)
+			}()
+		},
+		New: func() Exec { return &c10RootExec{DrvRun: d.New(), ref: ref} }}
+}
 
 func init() {
 	scenarioGens["C10"] = func(tier string) []*Scenario {
@@ -445,9 +507,47 @@ func init() {
 			d := docT{"big-roots", []string{big("alpha"), big("beta")}, []int{151, 151}, ""}
 			add(d, "out-text", 1, w2, nil)
 		}
+		// custom branch strings (equal and unequal widths, empty connector) together with the massive option
+		for fi, fm := range []model.Fmt4{
+			{LastDirect: "`--", LastIndirect: "    ", MidDirect: "+--", MidIndirect: ":   "},
+			{LastDirect: "\\____", LastIndirect: "  ", MidDirect: "|-", MidIndirect: "|    "},
+			{LastDirect: "", LastIndirect: "xx", MidDirect: "├──", MidIndirect: ""},
+		} {
+			fm := fm
+			for _, op := range []string{"out-text", "walk", "out-dry"} {
+				add(docs[1], op, k1, w2, func(s *c10Spec) { s.name = fmt.Sprintf("three/fmt%d", fi); s.fm = &fm; s.exts = []string{"f"} })
+			}
+		}
+		// a failing file-system call at every position of a massive mkdir
+		for j := 1; j <= 8; j++ {
+			j := j
+			add(docs[0], "mkdir", k1, w2, func(s *c10Spec) { s.name = fmt.Sprintf("two/fsfail%d", j); s.fsFail = j; s.exts = []string{"e"} })
+		}
 		// mkdir where a root exists beforehand: simple mode creates nothing at all
 		add(docs[0], "mkdir", k1, w2, func(s *c10Spec) { s.name = "two-second-exists"; s.pre = map[string]byte{"c": 'd'} })
 		add(docs[1], "mkdir", k1, w3, func(s *c10Spec) { s.name = "three-last-exists"; s.pre = map[string]byte{"e": 'f'} })
+		// the From-Root family with the massive option, with options that are rarely combined
+		{
+			tree := rootOf("- r\n  - a.go\n    - b\n  - c.go\n  - d\n    - e.go\n")
+			bad := rootOf("- r\n  - a\n    - x/y\n")
+			fm := model.Fmt4{LastDirect: "\\____", LastIndirect: "  ", MidDirect: "|-", MidIndirect: "|    "}
+			for _, op := range []string{"root:out-text", "root:out-json", "root:out-yaml", "root:out-toml", "root:walk", "root:mkdir", "root:mkdir-dry", "root:verify"} {
+				d := NewDrv(op, "")
+				d.Root, d.Exts = tree, []string{".go"}
+				if op == "root:verify" {
+					d.Pre, d.Strict = map[string]byte{"r/a.go/b": 'd', "r/c.go": 'f', "r/d/e.go": 'f', "r/zz": 'd'}, true
+				}
+				out = append(out, c10RootScenario("valid/"+op, d, k1, pols))
+				if op == "root:out-text" || op == "root:walk" || op == "root:mkdir-dry" {
+					f := NewDrv(op, "")
+					f.Root, f.Exts, f.Fmt = tree, []string{".go"}, &fm
+					out = append(out, c10RootScenario("fmt/"+op, f, k1, pols))
+				}
+				b := NewDrv(op, "")
+				b.Root = bad
+				out = append(out, c10RootScenario("invalid-name/"+op, b, k1, pols))
+			}
+		}
 		// strict verify with an extra entry in one root
 		add(docs[0], "verify", k1, w2, func(s *c10Spec) {
 			s.name = "two-strict-extra"
